@@ -12,6 +12,16 @@ static const double WEIGHTS[] = {0, 1, 2, 0.1, 0.3, 1e16};
 struct Sys
 {
     int cap = 5, nW = 6;
+    template <class O>
+    std::vector<std::string> variants(O &, const std::string &)
+    {
+        return {};
+    }
+    static constexpr bool kModelInCanon = false;  // the rounding allowance depends on the history, not only on the sum tree
+    template <class O, class F>
+    void checkTransition(O &, const std::vector<std::string> &, F)
+    {
+    }
     struct Obj
     {
         std::unique_ptr<P> p;
